@@ -6,6 +6,7 @@ import (
 	"strings"
 	"time"
 
+	"github.com/hedzr/is"
 	"github.com/hedzr/logg/slog"
 
 	"verifharness/gen"
@@ -98,6 +99,14 @@ func c05main(c *Ctx) {
 		// 0,1: none; 2: the same logger first logs in JSON; 3: in colored mode, then is switched to logfmt; 4: it has logged in
 		// logfmt before; 5: the record before this one (another logger) died in a value that panics while being formatted
 		warm := r.Intn(6)
+		// some logger of the process is (or was) at Debug level: setting that level switches the process-wide debug mode
+		// on (a documented side effect); the process is a production process all the same
+		if r.P(10) {
+			dbg := slog.New("dbg")
+			dbg.SetLevel(slog.DebugLevel)
+			c.R.Add("records_after_some_logger_was_set_to_debug_level", 1)
+			defer is.SetDebugMode(false)
+		}
 		tsLayout := "" // the logger's own timestamp layout concerns the time= pair only, never a time-valued attribute
 		if r.P(25) {
 			tsLayout = gen.Pick(r, []string{time.RFC1123, time.Kitchen, "2006-01-02", time.RFC3339, "15:04:05.000", time.RFC850, "Jan _2 15:04"})
@@ -122,7 +131,7 @@ func c05main(c *Ctx) {
 			case 5:
 				doomedRecord(FLogfmt, w)
 			}
-			evs := capture(log, func() { lg.LogAttrs(bg, cs.lvl, cs.msg, anyAttrs(cs.kvs)...) })
+			evs := capture(log, func() { lg.LogAttrs(bg, cs.lvl, cs.msg, mixedArgs(cs.kvs)...) })
 			c.R.Add("write_events", int64(len(evs)))
 			if len(evs) != 1 || evs[0].Kind != mon.EvWrite {
 				return nil, []tv{{"one-write", "count", fmt.Sprintf("expected exactly one Write, saw %s", fmtEvents(evs))}}
